@@ -78,10 +78,61 @@ def run(ctx):
             if bad <= 2:
                 ctx.violation({"kind": "not-all-or-nothing", "problems": probs, "workspace": l3common.ws_json(w),
                                "cfg": l3common.cfg_json(cfg), "args": l3gen.cfg_args(cfg)})
+    continued_pushes(ctx, rng, 120 if thorough else 30)
     ctx.coverage["statement_checks"] = len(cases)
     l3common.finish(ctx, "random workspaces (1-4 files, 1-6 patches, 1-3 file entries each: modify/create/delete/rename/mode, "
                          "duplicate entries, -pN/-R), a corrupted hunk in ~55%; thread counts 1/2/4; all backup modes; plus a "
                          "corpus of rename corner cases. distinct = distinct (workspace, config).")
+
+
+def continued_pushes(ctx, rng, n):
+    """the same statement from a tree where an earlier invocation already applied j patches: the names THIS run
+    appends to .pc/applied-patches are exactly the patches it applied, in order, after the j names that were there;
+    the tree is the starting tree with the first j+k patches; exit 0 iff j+k is the whole series"""
+    from props import C09
+    done = bad = 0
+    tries = 0
+    while done < n and tries < 6 * n:
+        tries += 1
+        w = l3gen.gen_workspace(rng, npatches=rng.randint(2, 6), fail_prob=0.5)
+        names = l3common.series_names(w)
+        if len(names) < 2:
+            continue
+        j = rng.randint(1, len(names) - 1)
+        cfg = l3common.rand_cfg(rng, threads=(1, 1, 2, 4))
+        steps = [(("C", j), 1), (rng.choice([("A",), ("C", len(names) - j), ("U", names[-1])]), cfg["threads"])]
+        res = C09.run_steps(ctx.binary, w, cfg, steps)
+        if l3common.exit_of(res[0]) != "0" or l3common.applied_patches(res[0]) != names[:j]:
+            continue          # the first invocation did not get to j: not the situation wanted here
+        done += 1
+        rc = l3common.exit_of(res[1])
+        applied = l3common.applied_patches(res[1])
+        probs = []
+        if rc not in ("0", "1"):
+            probs.append("exit status %s" % rc)
+        if applied[:j] != names[:j] or applied != names[:len(applied)]:
+            probs.append("after the second invocation applied-patches is %r: not the %d earlier names followed by the patches "
+                         "this run applied (series %r)" % (applied, j, names))
+        k = len(applied) - j
+        if (rc == "0") != (len(applied) == len(names)):
+            probs.append("exit status %s with %d of %d patches recorded" % (rc, len(applied), len(names)))
+        if not probs:
+            c2 = l3gen.default_cfg()
+            c2["backup"] = "N"
+            c2["fuzz"] = cfg["fuzz"]
+            ref, _, _ = l3gen.run_real(ctx.binary, truncated(w, len(applied)), c2)
+            a, b = no_series(l3common.tracked(res[1])), no_series(l3common.tracked(ref))
+            if a != b:
+                probs.append("tracked files after %d earlier + %d new patches differ from a push of the first %d patches: only here %s, only there %s" % (
+                    j, k, len(applied), [x[:120] for x in a if x not in b][:3], [x[:120] for x in b if x not in a][:3]))
+        if probs:
+            bad += 1
+            if bad <= 2:
+                ctx.violation({"kind": "not-all-or-nothing-continued", "problems": probs, "workspace": l3common.ws_json(w),
+                               "cfg": l3common.cfg_json(cfg), "earlier_patches": j,
+                               "steps": [[list(map(lambda x: x.decode("latin-1") if isinstance(x, bytes) else x, g)), t] for g, t in steps]})
+    ctx.coverage["continued_pushes"] = done
+    ctx.coverage["evaluations"] = ctx.coverage.get("evaluations", 0) + done
 
 
 def l3common_corpus():
@@ -113,7 +164,7 @@ def l3common_corpus():
 
 
 def replay(ctx, payload):
-    if "workspace" not in payload:
+    if "workspace" not in payload or "earlier_patches" in payload:
         return run(ctx)
     w = l3common.ws_from_json(payload["workspace"])
     cfg = l3common.cfg_from_json(payload["cfg"])
